@@ -544,6 +544,23 @@ func genEnc(g *h.Gen) {
 	v := acsVariant()
 	charsets := c17Charsets
 	special := specialRunes()
+	// 0. directed cases: the user-visible forms of the defects known on the pinned tree (they stay correct cases on a repaired one)
+	for _, d := range []struct {
+		entry, cs string
+		main      int
+		comb      []int
+	}{
+		{"xterm", "US-ASCII", int(tcell.RuneBullet), nil}, // last acsc pair `~~`
+		{"ansi", "ISO8859-1", int(tcell.RuneHLine), nil},  // terminal character 0xC4
+		{"vt220", "ISO8859-1", int(tcell.RuneHLine), nil}, // smacs/rmacs with padding
+		{"xterm", "ISO8859-6", 0x4e16, []int{0x64b}},      // wide '?' followed by an encodable combining mark
+	} {
+		if cd := newCodec(d.cs); cd != nil {
+			rs := append([]rune{rune(d.main)}, toRunes(d.comb)...)
+			g.Emit("enc cfg %s %s %s 6; D 1 %d %s %s; C %d 0 %s; C %d 1 %s", v, d.entry, d.cs, d.main, h.ShowIntList(d.comb), encList(cd, rs),
+				d.main, cd.encStr(rune(d.main)), d.main, cd.encStr(rune(d.main)))
+		}
+	}
 	// 1. sweeps: xterm (has an ACS map) over the BMP; an entry without ACS map and vt220 (padding in smacs) over the special runes
 	for ci, cs := range charsets {
 		cd := newCodec(cs)
